@@ -341,7 +341,7 @@ or >=1 read issued after the first error; distinct by hash of the serialised cas
             0u8..4,
             seg(),
             fault_strategy(),
-            gen::read_plan(),
+            gen::read_plan_with_text_reader(),
             proptest::collection::vec(gen::read_size(), 0..6),
         )
             .prop_map(|((payload, framing), hdr_style, seg, fault, reads, rereads)| Case {
@@ -357,7 +357,15 @@ or >=1 read issued after the first error; distinct by hash of the serialised cas
     }
 
     fn check(case: &Case, ctx: &mut Ctx) -> Outcome {
-        let payload = case.payload.bytes();
+        let mut payload = case.payload.bytes();
+        if matches!(case.reads, ReadPlan::TextReader(_)) {
+            // the streaming text reader decodes (windows-1252 by default): keep the payload ASCII so that the decoded text is
+            // the payload itself and the prefix invariant applies unchanged
+            for b in payload.iter_mut() {
+                *b = b'a' + (*b % 26);
+            }
+            ctx.label("text-reader");
+        }
         let built = build_response(200, &[], &case.framing, case.hdr_style, &payload);
         let wire = &built.wire;
         let sub = |mode| Sub {
